@@ -5,6 +5,7 @@
 //! exit: 0 property held on everything explored; 1 violation; 2 harness error.
 
 #![allow(dead_code, non_snake_case, unused_mut)]
+mod c12;
 mod c16;
 mod c18;
 mod c19;
@@ -60,6 +61,21 @@ fn scenarios_for(prop: &str) -> Option<(Vec<Box<dyn Scenario>>, Report)> {
                     "num-bigint comparison",
                     "uniformity is a statistical judgement: chi-square, reject only below p = 1e-12 per test",
                     "no algorithm-level model of the sampler: value and consumption are never predicted, only compared fixed vs boxed",
+                ],
+            ),
+        )),
+        "C12" => Some((
+            vec![Box::new(c12::Pool)],
+            base(
+                "C12",
+                "exploration",
+                "one run = a history of <= 32 events over a pool of NonZero/Odd values for carriers Limb, Uint<1>, Uint<2>, Uint<4>, Int<2>, BoxedUint: produce (every public producer: new, to_nz/to_odd + every exit of the option, new_unwrap, from_u8..u128, From<core::num::NonZero*>, ONE, MAX, Default, from_{be,le}_bytes, from_{be,le}_byte_array, Odd::from_{be,le}_hex), select/assign/swap between members, conversions (as_nz_ref, AsRef<NonZero>, abs_sign, widen, Odd<Uint> -> Odd<BoxedUint>, MontyParams::modulus), random generation from a fault-injected RNG tape, deserialization of hand-built and faulted records (sim format, bincode, json), and consumers. The first 252 runs enumerate every (carrier, wrapper, producer) triple. After every event every pool member must be valid; distinct_nontrivial = distinct abstract states (event kind, producer / consumer / conversion, carrier, argument validity class, outcome)",
+                &["RNG source (SimRng tapes: zero prefixes, all-even words, all-zero, short tapes, fail-at-call)", "serde format + storage medium faults", "wrapper validity predicate and stated-byte-order decoding (model)"],
+                &[
+                    "validity is read through as_ref().to_words(): value != 0 / low bit set (trusted bridge)",
+                    "Zeroize::zeroize(&mut wrapper) destroys the value by design and is not a producer (DESIGN C12)",
+                    "the placeholder inside a CtOption/ConstCtOption that reports none is not a pool member; only values that left the option through Option::from / unwrap / expect are",
+                    "Odd::<BoxedUint>::random(rng, 0): no odd value below 2^0 exists, nothing is asserted for that argument",
                 ],
             ),
         )),
